@@ -95,7 +95,7 @@ def cases(tier, seed, prop):
     out = [{'s': s, 'g': 'exh'} for s in gens.all_strings(gens.MATH_ALPHA, L)]
     n = 8000 if tier == 'quick' else 100000
     for _ in range(n // 2):
-        out.append({'s': ''.join(rnd.choice(gens.MATH_ALPHA + ['10', '0', '.5', '(1+2)', '-', 'a', '٣']) for _ in range(rnd.randint(6, 14))), 'g': 'rand'})
+        out.append({'s': ''.join(rnd.choice(gens.MATH_ALPHA + ['10', '0', '.5', '(1+2)', '-', 'a', '٣', '()', '(2)', ')(', '(3)(4)', '+()']) for _ in range(rnd.randint(6, 14))), 'g': 'rand'})
     for _ in range(n):
         t, v, f = gen_expr(rnd, 3, [rnd.randint(0, 9)])
         # an evaluation order that divides by zero in a sub-term the spec also flags; mixed outcomes are compared as given
